@@ -3394,11 +3394,17 @@ class Any(OctetString):
             return self._tagMap
 
         except AttributeError:
-            self._tagMap = tagmap.TagMap(
-                {self.tagSet: self},
-                {eoo.endOfOctets.tagSet: eoo.endOfOctets},
-                self
-            )
+            if self.tagSet:
+                # a tagged ANY is found by its tag like any other type;
+                # only the untagged one stands for "whatever comes"
+                self._tagMap = tagmap.TagMap({self.tagSet: self})
+
+            else:
+                self._tagMap = tagmap.TagMap(
+                    {self.tagSet: self},
+                    {eoo.endOfOctets.tagSet: eoo.endOfOctets},
+                    self
+                )
 
             return self._tagMap
 
